@@ -88,11 +88,32 @@ Definition fsel_of_quota (qt : quota) : fsel_eval :=
   | QFalse => FSV (VBool false)
   end.
 
+(* operators never ask for the string matches *)
+Lemma float_arith_nn f a b : float_arith f a b <> Needed.
+Proof. unfold float_arith. destruct (float_pair a b) as [[x y]|]; discriminate. Qed.
+
+Lemma eq_values_nn a b : eq_values a b <> Needed.
+Proof.
+  destruct a, b; cbn [eq_values]; try discriminate;
+    destruct (float_pair _ _) as [[x y]|]; discriminate.
+Qed.
+
+Lemma eval_bin_nn o a b : eval_bin o a b <> Needed.
+Proof.
+  destruct o; cbn [eval_bin];
+    try (destruct (eq_values a b) eqn:E; cbn [bind]; try discriminate; exfalso; exact (eq_values_nn _ _ E));
+    destruct a as [n|x|p|fa], b as [m|y|q|fb];
+    try apply float_arith_nn;
+    try (destruct (float_pair _ _) as [[? ?]|]; discriminate);
+    unfold num_op, str_op; cbn [unwrap_number unwrap_bytes bind]; try discriminate;
+    repeat match goal with |- context [if ?c then _ else _] => destruct c end; discriminate.
+Qed.
+
 Lemma eval_selection_sem k sv nb :
   eval_selection k (to_res sv) nb = Ok (fsel_of_quota (quota_of k sv nb)).
 Proof.
   destruct k; cbn [eval_selection quota_of fsel_of_quota]; try reflexivity.
-  destruct sv as [[z|b|b]|]; cbn [to_res bind unwrap_number onum]; try reflexivity.
+  destruct sv as [[z|b|b|fl]|]; cbn [to_res bind unwrap_number onum]; try reflexivity.
   destruct pct.
   - destruct (pct_quota z nb <=? 0)%Z; reflexivity.
   - destruct (Z.eqb_spec z 0); [reflexivity|].
@@ -142,7 +163,7 @@ Proof.
   - cbn [model_item spec_item fst snd].
     assert (Hstop : Ok (VBool false) = Ok (VBool (n <=? count_true (@nil bool)))).
     { unfold count_true, nlen; cbn. destruct (N.leb_spec n 0); [lia|reflexivity]. }
-    destruct oe as [[z|bs|b]|]; cbn [to_res].
+    destruct oe as [[z|bs|b|fl]|]; cbn [to_res].
     + destruct (defined_prefix (map spec_item its)) as [p d] eqn:Ep. cbn [spec_item fst snd]. cbn [fst] in *.
       rewrite count_true_cons.
       destruct ob as [v|]; cbn [to_res holds add_result].
@@ -164,6 +185,16 @@ Proof.
         -- rewrite IH by lia. reflexivity.
       * rewrite IH by lia. reflexivity.
     + cbn [undef_to_false fst]. exact Hstop.
+    + destruct (defined_prefix (map spec_item its)) as [p d] eqn:Ep. cbn [spec_item fst snd]. cbn [fst] in *.
+      rewrite count_true_cons.
+      destruct ob as [v|]; cbn [to_res holds add_result].
+      * destruct (truthy v).
+        -- destruct (N.eqb_spec (n - 1) 0) as [E|E]; cbn [undef_to_false].
+           ++ f_equal. f_equal. symmetry. apply N.leb_le. lia.
+           ++ rewrite IH by lia. f_equal. f_equal.
+              destruct (N.leb_spec (n - 1) (count_true p)); destruct (N.leb_spec n (1 + count_true p)); try lia; reflexivity.
+        -- rewrite IH by lia. reflexivity.
+      * rewrite IH by lia. reflexivity.
     + cbn [undef_to_false fst]. replace (0 <? 0) with false by reflexivity. cbn [undef_to_false]. exact Hstop.
 Qed.
 
@@ -175,7 +206,7 @@ Lemma list_loop_all_sem its :
 Proof.
   induction its as [|[oe ob] its IH]; cbn [map list_loop sel_end defined_prefix fst snd]; [reflexivity|].
   cbn [model_item spec_item fst snd].
-  destruct oe as [[z|bs|b]|]; cbn [to_res].
+  destruct oe as [[z|bs|b|fl]|]; cbn [to_res].
   - destruct (defined_prefix (map spec_item its)) as [p d] eqn:Ep. cbn [spec_item fst snd]. cbn [fst snd] in *.
     rewrite count_true_cons, nlen_cons. pose proof (count_true_le p) as Hle.
     destruct ob as [v|]; cbn [to_res holds add_result].
@@ -201,6 +232,18 @@ Proof.
       replace (0 + count_true p =? 1 + nlen p) with false by (symmetry; apply N.eqb_neq; lia).
       rewrite andb_false_r. reflexivity.
   - reflexivity.
+  - destruct (defined_prefix (map spec_item its)) as [p d] eqn:Ep. cbn [spec_item fst snd]. cbn [fst snd] in *.
+    rewrite count_true_cons, nlen_cons. pose proof (count_true_le p) as Hle.
+    destruct ob as [v|]; cbn [to_res holds add_result].
+    + destruct (truthy v).
+      * rewrite IH. f_equal. f_equal. f_equal.
+        destruct (N.eqb_spec (count_true p) (nlen p)); destruct (N.eqb_spec (1 + count_true p) (1 + nlen p)); try lia; reflexivity.
+      * cbn [undef_to_false]. f_equal. f_equal.
+        replace (0 + count_true p =? 1 + nlen p) with false by (symmetry; apply N.eqb_neq; lia).
+        rewrite andb_false_r. reflexivity.
+    + cbn [undef_to_false]. f_equal. f_equal.
+      replace (0 + count_true p =? 1 + nlen p) with false by (symmetry; apply N.eqb_neq; lia).
+      rewrite andb_false_r. reflexivity.
   - reflexivity.
 Qed.
 
@@ -211,7 +254,7 @@ Lemma list_loop_none_sem its :
 Proof.
   induction its as [|[oe ob] its IH]; cbn [map list_loop sel_end defined_prefix fst snd]; [reflexivity|].
   cbn [model_item spec_item fst snd].
-  destruct oe as [[z|bs|b]|]; cbn [to_res].
+  destruct oe as [[z|bs|b|fl]|]; cbn [to_res].
   - destruct (defined_prefix (map spec_item its)) as [p d] eqn:Ep. cbn [spec_item fst snd]. cbn [fst snd] in *.
     rewrite count_true_cons.
     destruct ob as [v|]; cbn [to_res holds add_result].
@@ -231,6 +274,15 @@ Proof.
       * rewrite IH. reflexivity.
     + rewrite IH. reflexivity.
   - reflexivity.
+  - destruct (defined_prefix (map spec_item its)) as [p d] eqn:Ep. cbn [spec_item fst snd]. cbn [fst snd] in *.
+    rewrite count_true_cons.
+    destruct ob as [v|]; cbn [to_res holds add_result].
+    + destruct (truthy v).
+      * cbn [undef_to_false]. f_equal. f_equal.
+        replace (1 + count_true p =? 0) with false by (symmetry; apply N.eqb_neq; lia).
+        rewrite andb_false_r. reflexivity.
+      * rewrite IH. reflexivity.
+    + rewrite IH. reflexivity.
   - reflexivity.
 Qed.
 
@@ -258,7 +310,7 @@ Qed.
 
 (* ------------------------------------------------------------------ the evaluator computes `sem` *)
 Lemma bind_num_to_res (o : option value) : bind (to_res o) unwrap_number = to_res (onum o).
-Proof. destruct o as [[z|b|b]|]; reflexivity. Qed.
+Proof. destruct o as [[z|b|b|fl]|]; reflexivity. Qed.
 
 Lemma to_res_obind {A B} (o : option A) (f : A -> option B) :
   to_res (obind o f) = bind (to_res o) (fun a => to_res (f a)).
@@ -401,10 +453,7 @@ Section Sem.
       rewrite IHe1, IHe2 by assumption.
       destruct (sem qM sel stack e1) as [x|]; cbn [bind to_res obind]; [|reflexivity].
       destruct (sem qM sel stack e2) as [y|]; cbn [bind to_res obind]; [|reflexivity].
-      symmetry. apply to_res_of_res; [|apply Proofs.NoScanProofs.eval_bin_np].
-      destruct o; cbn [eval_bin]; unfold str_op, num_op;
-        destruct x as [n|xb|p], y as [m|yb|q]; cbn; try discriminate;
-        repeat match goal with |- context [if ?c then _ else _] => destruct c end; discriminate.
+      symmetry. apply to_res_of_res; [apply eval_bin_nn|apply Proofs.NoScanProofs.eval_bin_np].
     - (* EAnd *)
       rewrite (map_sem l sel stack) by assumption. apply and_loop_sem.
     - (* EOr *)
@@ -465,7 +514,7 @@ Section Sem.
                                      | Some v => Some (holds (sem qM sel (stack ++ [v]) e2))
                                      | None => None end) elems = map spec_item its).
       { subst its. rewrite map_map. apply map_ext. intros el. unfold spec_item; cbn [fst snd].
-        destruct (sem qM sel stack el) as [[z|b|b]|]; reflexivity. }
+        destruct (sem qM sel stack el) as [[z|b|b|fl]|]; reflexivity. }
       rewrite Hspec.
       pose proof (list_loop_quota (quota_of k (sem qM sel stack e1) 0) its
                     (fun n => quota_num_pos k (sem qM sel stack e1) 0 n)) as Hq.
@@ -505,6 +554,8 @@ Section Sem.
       cbn [e_ext envM q_ext qM]. destruct (nth_error ext i); reflexivity.
     - (* EBound *)
       destruct (nth_error stack i); reflexivity.
+    - (* EDouble *)
+      reflexivity.
   Qed.
 End Sem.
 
